@@ -89,7 +89,7 @@ def prebuilt(variant):
         traj = concretise.vib_traj(2, 6, M, 1e-15 * (1 + variant))
         from ..checks.c12 import SITE_FRAC
 
-        sites = concretise.make_sites(np.array(SITE_FRAC), ['A', 'B', 'A'], M)
+        sites = concretise.make_sites(np.array(SITE_FRAC[:3]), ['A', 'B', 'A'], M)
         tr = impl.make_transitions(TRACES[variant], 3, trajectory=traj, diff_trajectory=traj, sites=sites)
         from gemdat.jumps import Jumps
 
